@@ -114,6 +114,11 @@ _tok('amb_null', [Rule('start', [[N('o'), A, N('o')]]), Rule('o', [[], [A], [N('
 _tok('amb4', [Rule('start', [[N('a'), N('b'), B, B]]), Rule('a', [[A], [A, A]]), Rule('b', [[A], [A, A]])], ['A', 'B'], {'ambiguous', 'amb', 'cnf_ok'})
 _tok('amb4n', [Rule('start', [[N('a'), N('b'), B, C]]), Rule('a', [[A], []]), Rule('b', [[A], []])], ['A', 'B', 'C'], {'ambiguous', 'amb'})
 
+# two alternatives of three symbols whose names, joined by '_', read the same (a_b c d / a b_c d): generated helper names must not collide
+_tok('undersc', [Rule('start', [Alt([N('a_b'), N('c'), N('d')], alias='first'), Alt([N('a'), N('b_c'), N('d')], alias='second')]),
+                 Rule('a_b', [[A]]), Rule('c', [[B]]), Rule('d', [[C]]), Rule('a', [[D]]), Rule('b_c', [[T('E')]])],
+     ['A', 'B', 'C', 'D', 'E'], {'lalr', 'unamb', 'cnf_ok'})
+
 # a group with alternatives under ~n: every occurrence chooses its alternative independently
 _tok('repalt', [Rule('start', [[Rep(Grp([A], [B]), 2, 2), C]])], ['A', 'B', 'C'], {'lalr', 'unamb'})
 
